@@ -75,7 +75,7 @@ struct pdu_gen
         {
             // valid parameters, instant in the near future
             const unsigned interval = 6 + r.below( 75 );
-            p[ 1 ] = static_cast< std::uint8_t >( 1 + r.below( std::min< unsigned >( 8, interval ) ) );
+            p[ 1 ] = static_cast< std::uint8_t >( 1 + r.below( std::min< unsigned >( 8, interval - 1 ) ) );
             put16( p, 2, r.below( interval + 1 ) );
             put16( p, 4, interval );
             put16( p, 6, 0 );
